@@ -60,7 +60,7 @@ TIERS = {
                   fs=dict(n=3, k=2), btrace=600),
     "thorough": dict(mc=[(5, 3, "{TRUE}"), (4, 3, "{FALSE}")], cover=[(4, 2), (3, 3)], sim=dict(n=5, k=3, num=30000),
                      rnd=dict(n=5, k=3, reps=6), nopp=dict(n=4, k=3), big=dict(ns=(6, 7, 8, 10, 12), k=5, num=3000),
-                     fs=dict(n=4, k=3), btrace=15000),
+                     fs=dict(n=4, k=3), btrace=8000),
 }
 
 MC_CFG = """SPECIFICATION Spec
